@@ -66,6 +66,15 @@ pub fn dp_queries(tier: Tier) -> Vec<DpQuery> {
             v.push(DpQuery { sql: format!("SELECT {a1}(amount) AS x, {a2}(id) AS y FROM orders"), tables: o.to_vec(), tags: vec!["ungrouped", "two-columns", "fk-path", "nullable"] });
         }
     }
+    // two aggregates over one column followed by an aggregate over another column with a different range (both
+    // assignments of the columns): per-column clipping bounds must not be mixed up
+    for (c1, c2) in [("id", "amount"), ("amount", "id")] {
+        for (a1, a2) in [("count", "avg"), ("avg", "count"), ("count", "sum"), ("sum", "avg")] {
+            for a3 in ["sum", "count", "avg"] {
+                v.push(DpQuery { sql: format!("SELECT {a1}({c1}) AS x, {a2}({c1}) AS y, {a3}({c2}) AS z FROM orders"), tables: o.to_vec(), tags: vec!["ungrouped", "three-aggregates", "fk-path", "nullable"] });
+            }
+        }
+    }
     v.push(dq("SELECT count(*) AS c, count(amount) AS ca, avg(amount) AS a FROM orders", o, &["ungrouped", "two-columns", "fk-path", "nullable"]));
     v.push(dq("SELECT u.city, count(o.amount) AS ca, count(u.age) AS cu FROM users u JOIN orders o ON u.id = o.user_id GROUP BY u.city", o, &["public-key", "two-columns", "join", "nullable"]));
     if tier == Tier::Thorough {
@@ -103,6 +112,31 @@ fn with_owners(tables: &[&'static str]) -> Vec<&'static str> {
 /// contains an aggregate below a projection / filter / DISTINCT
 pub fn dp_composed(tier: Tier) -> Vec<DpQuery> {
     let mut out = vec![];
+    // depth 1: an aggregate over a join of two base tables (every kind, every ON clause of the alphabet: extra
+    // conditions, OR of equalities, inequalities; parent-child, child-child and self joins)
+    for r in crate::sqlgen2::level1_binary() {
+        let is_agg = r.term.contains(".s3(") || r.term.contains(".s4(");
+        let protected_pair = r.tables.iter().all(|t| matches!(*t, "users" | "orders" | "items" | "ref")) && r.tables.iter().any(|t| *t != "ref");
+        if !is_agg || !protected_pair {
+            continue;
+        }
+        if tier == Tier::Quick {
+            // quick: users / orders pairs (parent-child both ways, self joins), inner and left, three ON shapes
+            let pair_ok = r.tables.iter().all(|t| matches!(*t, "users" | "orders"));
+            let kind_ok = r.tags.contains(&"inner") || r.tags.contains(&"left");
+            let on_ok = r.tags.contains(&"on-eq") || r.tags.contains(&"on-eq-and-cmp") || r.tags.contains(&"on-eq-or-eq");
+            if !(pair_ok && kind_ok && on_ok) {
+                continue;
+            }
+        }
+        let mut tags: Vec<&'static str> = vec!["composed", "agg-over-join"];
+        for t in &r.tags {
+            if matches!(*t, "ungrouped" | "grouped" | "left" | "right" | "full" | "cross" | "inner" | "on-eq" | "on-eq-and-cmp" | "on-eq-or-eq" | "on-lt" | "on-eq-reversed" | "using") && !tags.contains(t) {
+                tags.push(t);
+            }
+        }
+        out.push(DpQuery { sql: r.sql.clone(), tables: with_owners(&r.tables), tags });
+    }
     for r in crate::sqlgen2::compose(2) {
         if r.depth != 2 || r.tables.iter().any(|t| !matches!(*t, "users" | "orders" | "items" | "ref")) || r.tables.iter().all(|t| *t == "ref") {
             continue;
@@ -181,6 +215,37 @@ pub fn c03_queries(tier: Tier) -> Vec<DpQuery> {
             let sql = if keys.is_empty() { format!("SELECT {} FROM {table}", items.join(", ")) } else { format!("SELECT {keys}, {} FROM {table} GROUP BY {keys}", items.join(", ")) };
             v.push(DpQuery { sql, tables: tables.to_vec(), tags });
         }
+    }
+    // joins and set operations of two aggregating sub-queries (the mechanisms of BOTH sides must be recorded)
+    for r in crate::sqlgen2::compose(2) {
+        let binary_top = r.term.starts_with("J.") || r.term.starts_with("S.");
+        let args = r.term.splitn(2, '(').nth(1).unwrap_or("");
+        let both_aggregate = args.starts_with('A') && args.contains(", A");
+        if binary_top && both_aggregate && r.tables.iter().all(|t| matches!(*t, "users" | "orders")) && (r.term.contains(".eq.s1(") || r.term.contains(".eq.s2(") || r.term.starts_with("S.")) {
+            v.push(DpQuery { sql: r.sql.clone(), tables: with_owners(&r.tables), tags: vec!["composed", "two-dp-subqueries", if r.term.starts_with("S.") { "setop" } else { "join" }] });
+        }
+    }
+    // two DIFFERENT aggregating sub-queries with the same mechanism shape (the same number of noisy sums, both with or
+    // both without thresholding), joined or united: their events are equal as values but both must be recorded
+    {
+        let u: &[&'static str] = &["users"];
+        let o: &[&'static str] = &["users", "orders"];
+        let pub_a = "SELECT city, count(*) AS c FROM users GROUP BY city";
+        let pub_b = "SELECT city, count(*) AS c FROM users WHERE age > 18 GROUP BY city";
+        let prv_a = "SELECT user_id, sum(amount) AS s FROM orders GROUP BY user_id";
+        let prv_b = "SELECT user_id, sum(amount) AS s FROM orders WHERE amount > 5 GROUP BY user_id";
+        let sc_a = "SELECT 1 * count(*) AS c FROM users";
+        let sc_b = "SELECT 1 * count(age) AS c FROM users WHERE age > 18";
+        let tags: &[&'static str] = &["composed", "two-dp-subqueries", "same-shape"];
+        v.push(dq(&format!("SELECT a.city, a.c, b.c AS c2 FROM ({pub_a}) AS a JOIN ({pub_b}) AS b ON a.city = b.city"), u, tags));
+        v.push(dq(&format!("SELECT a.city, a.c, b.c AS c2 FROM ({pub_a}) AS a LEFT JOIN ({pub_b}) AS b ON a.city = b.city"), u, tags));
+        v.push(dq(&format!("{pub_a} UNION ALL {pub_b}"), u, tags));
+        v.push(dq(&format!("{pub_a} UNION {pub_b}"), u, tags));
+        v.push(dq(&format!("SELECT a.user_id, a.s, b.s AS s2 FROM ({prv_a}) AS a JOIN ({prv_b}) AS b ON a.user_id = b.user_id"), o, tags));
+        v.push(dq(&format!("{prv_a} UNION ALL {prv_b}"), o, tags));
+        v.push(dq(&format!("SELECT a.c, b.c AS c2 FROM ({sc_a}) AS a CROSS JOIN ({sc_b}) AS b"), u, tags));
+        v.push(dq(&format!("{sc_a} UNION ALL {sc_b}"), u, tags));
+        v.push(dq(&format!("WITH a AS ({pub_a}), b AS ({pub_b}) SELECT a.city, a.c + b.c AS t FROM a JOIN b ON a.city = b.city"), u, tags));
     }
     // keys only
     v.push(dq("SELECT age FROM users GROUP BY age", &["users"], &["private-key", "keys-only"]));
@@ -478,7 +543,7 @@ pub fn run(ctx: &Ctx, which: Which) -> Report {
                 continue;
             }
             // the two-column aggregate pairs are about the reassembly of the aggregates (C09): one point for C01 quick
-            if which == Which::C01 && ctx.tier == Tier::Quick && q.tags.contains(&"two-columns") && gi >= 1 {
+            if which == Which::C01 && ctx.tier == Tier::Quick && (q.tags.contains(&"two-columns") || q.tags.contains(&"three-aggregates")) && gi >= 1 {
                 continue;
             }
             let id = format!("{} [{}]", q.sql, name);
@@ -559,6 +624,10 @@ pub fn run(ctx: &Ctx, which: Which) -> Report {
                     }
                 };
                 for db in dbs.iter() {
+                    // quick: the composed programs on the instances with <= 3 rows in total
+                    if tier == Tier::Quick && c.query.tags.contains(&"composed") && db.values().map(|rows| rows.len()).sum::<usize>() > 3 {
+                        continue;
+                    }
                     match which {
                         Which::C01 => check_c01(c, &plan, &e, world, db, r),
                         Which::C09 => check_c09(c, &plan, &e, world, db, r),
@@ -705,10 +774,10 @@ fn check_c01(c: &Compiled, plan: &crate::sqlite::Plan, e: &Engine, world: &World
             }
             if norm > cbound * (1.0 + 1e-9) + 1e-12 {
                 r.violation(
-                    format!("sensitivity-exceeds-clip column-kind={} tags={}", n.column.split('_').nth(1).unwrap_or("?"), c.query.tags.join("+")),
+                    c01_sig(&format!("sensitivity-exceeds-clip column-kind={}", n.column.split('_').nth(1).unwrap_or("?")), c),
                     &case_id,
                     json!({"query": c.query.sql, "dp_parameters": c.dp_name, "noised_column": n.column, "sigma": n.sigma, "clip_bound_C": cbound, "observed_l2_change": norm,
-                           "removed_unit": u, "database": show_db(db), "pre_noise_on_D": ta.show(), "pre_noise_on_D_minus_u": tb.show()}),
+                           "removed_unit": u, "database": show_db(db), "pre_noise_on_D": ta.show(), "pre_noise_on_D_minus_u": tb.show(), "features": c.features}),
                 );
             }
             // sigma must be scaled by at least the recorded multiplier times C
@@ -855,7 +924,31 @@ fn check_c03(c: &Compiled, r: &mut Report) {
             r.machinery_errors.push(format!("C03: threshold on {} without a noised count in {}", t.column, case_id));
         }
     }
-    // (ii) the budget: uniform split of what is left of delta
+    // (ii) the budget. A query with several DP aggregations hands (epsilon, delta) to EACH of them: the Gaussian columns
+    // are grouped by the Map that adds their noise, and each group alone must fit (a necessary condition: the
+    // thresholds are not attributed to a group, so their share is not subtracted)
+    let mut groups: BTreeMap<String, Vec<f64>> = BTreeMap::new();
+    for n in &gauss {
+        if let Some(cb) = n.clip {
+            if cb > 0.0 {
+                groups.entry(n.node.clone()).or_default().push(n.sigma / cb);
+            }
+        }
+    }
+    if groups.len() > 1 {
+        r.reach("reach", "several-dp-aggregations");
+        for (node, ratios) in &groups {
+            let eps_sum = min_epsilon_sum(ratios, c.dp.delta);
+            if eps_sum > c.dp.epsilon * (1.0 + 1e-6) {
+                r.violation(
+                    format!("budget-exceeded(one-aggregation) tags={tags}"),
+                    &case_id,
+                    json!({"query": c.query.sql, "dp_parameters": c.dp_name, "noise_node": node, "epsilon": c.dp.epsilon, "delta": c.dp.delta, "epsilon_implied_by_the_gaussians": eps_sum, "sigma_over_C": ratios}),
+                );
+            }
+        }
+        return;
+    }
     let k = actual.len() as f64;
     if k > 0.0 {
         let delta_left = c.dp.delta - delta_used;
@@ -883,6 +976,23 @@ fn check_c03(c: &Compiled, r: &mut Report) {
 
 thread_local! {
     static KNOWN_C09: std::collections::BTreeSet<String> = crate::features::open_known("C09");
+    static KNOWN_C01: std::collections::BTreeSet<String> = crate::features::open_known("C01");
+}
+
+fn c01_sig(kind: &str, c: &Compiled) -> String {
+    let by_tags = format!("{kind} tags={}", c.query.tags.join("+"));
+    KNOWN_C01.with(|k| {
+        if k.contains(&by_tags) {
+            return by_tags.clone();
+        }
+        for f in &c.features {
+            let s = format!("{kind} @{f}");
+            if k.contains(&s) {
+                return s;
+            }
+        }
+        by_tags.clone()
+    })
 }
 
 /// `kind tags=..` when that is a known finding, else the first known `kind @feature` of the original relation, else
@@ -1015,7 +1125,7 @@ fn check_c09(c: &Compiled, plan: &crate::sqlite::Plan, e: &Engine, world: &World
                 r.violation(
                     c09_sig(&format!("aggregate-differs kind={kind}"), c),
                     &case_id,
-                    json!({"query": c.query.sql, "dp_parameters": c.dp_name, "column": orig.cols[i], "group": k, "true_value": o.show(), "dp_value_with_zero_noise": d.show(), "database": show_db(db), "original": orig.show(), "dp": dp.show()}),
+                    json!({"query": c.query.sql, "dp_parameters": c.dp_name, "column": orig.cols[i], "group": k, "true_value": o.show(), "dp_value_with_zero_noise": d.show(), "database": show_db(db), "original": orig.show(), "dp": dp.show(), "features": c.features}),
                 );
                 return;
             }
